@@ -114,6 +114,7 @@ type PipelineDef struct {
 }
 
 type Prog struct {
+	NestedChain bool // a map call over a sibling map call inside a map-called pipeline (KF-C01-2)
 	StaticRagged bool // nested map call over a literal array of arrays of different lengths
 	ArrayOfMaps bool // holds the nested map call over an array of typed maps (KF-C03-2)
 	NameClash bool // an explicit output name equals a later output\'s default name (the compiler should refuse)
